@@ -2,6 +2,7 @@ import NeumannModel.Common.Proto
 import NeumannModel.Blob.Model
 import NeumannModel.Blob.Conc
 import NeumannModel.Blob.Writers
+import NeumannModel.Blob.Aging
 /-
   Line-protocol driver for the blob-store model (C19).  Keys are the chunk
   bytes themselves (`h = id`); artifact ids are `a<n>` in creation order.
@@ -24,6 +25,10 @@ import NeumannModel.Blob.Writers
     exists a<n> | stats | vchunk <keyhex> | cexist a<n> | orphans | touch a<n>
     gcsel <minCreated> <keyhex,..>           → gc_cycle that looked only at these keys (batch_size < chunk count)
     ropen <r> a<n> | rnext <r> | rread <r> <n> | rall <r> | rverify <r> | rdrop <r>   (streaming reader)
+    clock <now> <minAge>                     → ok        (a long-lived store: wall clock in seconds, the store's min_age)
+    c <op without its times>                 → the operation of `Aging.lean` (`applyC`), the clock filled in:
+        c put <hex> | c stream <pcs> | c abandon <pcs> | c wopen <w> | c wwrite <w> <hex> | c wfinish <w> | c wdrop <w>
+        c delete a<n> | c get a<n> | c verify a<n> | c gc | c gcsel <keyhex,..> | c fullgc | c repair | c tick <n>
 -/
 open Neumann Neumann.Proto Neumann.Blob
 
@@ -34,6 +39,9 @@ structure DState where
   st : State Key
   writers : List (Nat × Writer Key)
   readers : List (Nat × Reader Key) := []
+  /-- the wall clock and the `min_age` of the long-lived store (`clock`, `c ...`) -/
+  now : Nat := 0
+  minAge : Nat := 0
 
 def hid : List Nat → Key := id
 
@@ -177,6 +185,9 @@ def blobStep (ds : DState) (line : String) : DState × String :=
   | ["drop", k] => match unhex k with
       | some k => ({ ds with st := dropChunk s k }, "ok")
       | none => bad
+  | ["clock", now, age] => match now.toNat?, age.toNat? with
+      | some now, some age => ({ ds with now := now, minAge := age }, "ok")
+      | _, _ => bad
   | ["image"] => (ds, showImage s)
   | ["chunks", c, d] => match c.toNat?, unhex d with
       | some c, some d => (ds, ",".intercalate ((chunks c d).map hex) ++ ";")
@@ -248,12 +259,71 @@ def blobStep (ds : DState) (line : String) : DState × String :=
       | none => bad
   | _ => bad
 
+/-- an untimed operation line as a `COp` (`gcsel` names the keys the cycle looked at: their scan positions) -/
+def parseCOp (s : State Key) (ws : List String) : Option COp :=
+  match ws with
+  | ["put", d] => (unhex d).map COp.put
+  | ["stream", ps] => (parsePieces ps).map COp.stream
+  | ["abandon", ps] => (parsePieces ps).map COp.abandon
+  | ["wopen", w] => w.toNat?.map COp.wopen
+  | ["wwrite", w, d] => match w.toNat?, unhex d with
+      | some w, some d => some (.wwrite w d) | _, _ => none
+  | ["wfinish", w] => w.toNat?.map COp.wfinish
+  | ["wdrop", w] => w.toNat?.map COp.wdrop
+  | ["delete", a] => (parseArt a).map COp.delete
+  | ["get", a] => (parseArt a).map COp.get
+  | ["verify", a] => (parseArt a).map COp.verify
+  | ["gc"] => some .gc
+  | ["gcsel", ks] => (parsePieces ks).map fun ks =>
+      .gcBatch ((List.range s.chunks.length).filter fun i => match (s.chunks.map (·.1))[i]? with
+        | some k => ks.contains k | none => false)
+  | ["fullgc"] => some .fullGc
+  | ["repair"] => some .repair
+  | ["tick", n] => n.toNat?.map COp.tick
+  | _ => none
+
+/-- the line of a stamped operation (the answer is computed by `blobStep` on it) -/
+def showWOp (s : State Key) : WOp → String
+  | .base (.put t d) => s!"put {t} {hex d}"
+  | .base (.stream t ps) => s!"stream {t} " ++ (if ps.isEmpty then "." else ",".intercalate (ps.map fun p => if p.isEmpty then "-" else hex p))
+  | .base (.abandon t ps) => s!"abandon {t} " ++ (if ps.isEmpty then "." else ",".intercalate (ps.map fun p => if p.isEmpty then "-" else hex p))
+  | .base (.delete id) => s!"delete a{id}"
+  | .base (.gc mc batch) =>
+      let ks := batch.filterMap fun i => (s.chunks.map (·.1))[i]?
+      s!"gcsel {mc} " ++ (if ks.isEmpty then "." else ",".intercalate (ks.map hex))
+  | .base (.gcAll now age) => s!"gc {now} {age}"
+  | .base .fullGc => "fullgc"
+  | .base .repair => "repair"
+  | .base (.verify id) => s!"verify a{id}"
+  | .base (.get id) => s!"get a{id}"
+  | .wopen w => s!"wopen {w}"
+  | .wwrite w t d => s!"wwrite {w} {t} {hex d}"
+  | .wfinish w t => s!"wfinish {w} {t}"
+  | .wdrop w => s!"wdrop {w}"
+
+/-- `c <op>`: the state moves by `applyC` (the function the theorems of `Props2` are about); the answer is the
+    answer of the operation with the clock filled in (`COp.stamp`) -/
+def cstep (ds : DState) (ws : List String) : DState × String :=
+  match parseCOp ds.st ws with
+  | none => (ds, "bad-op")
+  | some op =>
+    let c := applyC hid ds.cfg ds.minAge ⟨⟨ds.st, ds.writers⟩, ds.now⟩ op
+    let ds' := { ds with st := c.x.st, writers := c.x.writers, now := c.now }
+    match op.stamp ds.minAge ds.now with
+    | none => (ds', s!"ok {c.now}")
+    | some w =>
+      let ans := (blobStep ds (showWOp ds.st w)).2
+      (if ans = "bad-op" then ds else ds', ans)
+
 /-- `! <op>` answers `<answer of op>\t<image after op>` in one round trip -/
 def blobStepImg (ds : DState) (line : String) : DState × String :=
   match line.toList with
   | '!' :: ' ' :: rest =>
-      let r := blobStep ds (String.ofList rest)
+      let r := match rest with
+        | 'c' :: ' ' :: rest' => cstep ds (words (String.ofList rest'))
+        | _ => blobStep ds (String.ofList rest)
       (r.1, r.2 ++ "\t" ++ showImage r.1.st)
+  | 'c' :: ' ' :: rest => cstep ds (words (String.ofList rest))
   | _ => blobStep ds line
 
 def main : IO Unit := run blobStepImg { cfg := ⟨4, none⟩, st := State.init, writers := [] }
